@@ -759,13 +759,14 @@ fn main_ports_random(args: &[String]) {
     let maxsock = util::arg_u64(args, "maxsock", 8) as usize;
     let names = util::arg_u64(args, "names", 40);
     let dnsops = util::arg_u64(args, "dnsops", nops * 2);
+    let dnsfill = util::arg_u64(args, "dnsfill", 0).min(names);
     let out = util::arg(args, "out").expect("out=");
     let mut rng = SmallRng::seed_from_u64(seed ^ 0x706f7274);
     let mut all: Vec<Value> = Vec::new();
     let (mut nport, mut ndns) = (0u64, 0u64);
     let fixed: Vec<u16> = vec![lo + 1, hi, 9];
     for r in 0..runs {
-        let v6 = rng.random_bool(0.5);
+        let v6 = r % 2 == 1;
         // ---- ports session
         let mut run = PortsRun::new(lo, hi, v6, seed * 1000 + r);
         let mut nin = 0;
@@ -817,6 +818,17 @@ fn main_ports_random(args: &[String]) {
         // ---- DNS session
         let mut d = DnsRun::new(v6, names);
         let mut registered: Vec<u64> = Vec::new();
+        // fill: register `dnsfill` distinct names, look each up again, reverse-resolve each address
+        for n in 1..=dnsfill {
+            rec::emit(d.op(&json!({"a":"lookup","n":n}), n));
+            registered.push(n);
+            ndns += 1;
+        }
+        for n in 1..=dnsfill {
+            rec::emit(d.op(&json!({"a":"lookup","n":n}), n + 1));
+            rec::emit(d.op(&json!({"a":"reverse","k":n}), n));
+            ndns += 2;
+        }
         for i in 0..dnsops {
             let o = match rng.random_range(0..10) {
                 0..=4 => {
@@ -1737,6 +1749,9 @@ fn main_tcp_random(args: &[String]) {
             let mut held: BTreeMap<usize, bool> = BTreeMap::new();
             let mut last_send = 0u64;
             let conn_mode = mode == "conn";
+            // burst: the connectors start back to back and the listener accepts only after their
+            // requests have queued up (several requests pending at one listener at the same time)
+            let burst_until: u64 = if conn_mode && rng.random_bool(0.6) { 2 * lmax / tick + nconn + 3 } else { 0 };
             // listener(s)
             run.cmd(nh, TCmd::Bind { p: 1, kind: "any".into() });
             bound.insert(1, "any".into());
@@ -1802,7 +1817,8 @@ fn main_tcp_random(args: &[String]) {
                 // requests that may sit in a listener queue stay below tcp_capacity (beyond: documented panic)
                 let room = |p: u64| conns.values().filter(|k| k.p == p && !k.out_of_queue).count() < cap;
                 let want_p: u64 = if rng.random_bool(0.8) { 1 } else { 2 };
-                if next <= nconn && rng.random_bool(0.35) && room(want_p) {
+                let want_p: u64 = if st <= burst_until { 1 } else { want_p };
+                if next <= nconn && rng.random_bool(if st <= burst_until { 0.9 } else { 0.35 }) && room(want_p) {
                     let kind = rng.random_range(0..10);
                     // remote client / the server's own host by name / by 127.0.0.1 / nobody's address
                     let (h, dst, dh, lo) = if kind < 6 && nh > 1 {
@@ -1832,7 +1848,7 @@ fn main_tcp_random(args: &[String]) {
                     }
                 }
                 for p in bound.keys() {
-                    if rng.random_bool(0.6) {
+                    if st > burst_until && rng.random_bool(0.6) {
                         run.cmd(nh, TCmd::Accept { p: *p });
                     }
                 }
